@@ -84,6 +84,8 @@ def sample_from_symbol(sym):
         return obj2(sym[1], sym[2])
     if tag == "J":
         return copy.deepcopy(sym[1])
+    if tag == "K":      # ['K', key, value name]: single field under a key that needs renaming
+        return {} if sym[2] == ABSENT else {sym[1]: value(sym[2])}
     if tag == "G":
         return graph_object(sym[1])
     raise ValueError(sym)
@@ -96,6 +98,8 @@ def symbol_name(sym):
         return f"2({sym[1]},{sym[2]})"
     if sym[0] == "G":
         return "G" + graph_name(sym[1])
+    if sym[0] == "K":
+        return f"K({sym[1]}:{sym[2]})"
     return "J" + repr(sym[1])
 
 
